@@ -86,7 +86,7 @@ def pinnedArgSkeleton : List (String × String) := [
   ("Root.formArgs", "4ce1628b3fc4"),
   ("Root.formReflectArgs", "3966a01466f3"),
   ("Root.replaceArgVars", "8e6170986780"),
-  ("Root.resolveField", "6c3ed99b6022"),
+  ("Root.resolveField", "071312e2043a"),
   ("checkReflectArgs", "a983f6c0bc0d")
 ]
 
